@@ -305,6 +305,7 @@ func checkC11(c *Ctx) error {
 
 type c11rule struct {
 	name   string
+	yaml2  string // a second input file, read after the first (empty: none)
 	yaml   string
 	accept bool
 	names  []string // keys that must be named when rejected ("" entries ignored)
@@ -314,7 +315,7 @@ func c11Rules(c *Ctx) {
 	w := c.W
 	var rules []c11rule
 	add := func(name, yaml string, accept bool, names ...string) {
-		rules = append(rules, c11rule{name, yaml, accept, names})
+		rules = append(rules, c11rule{name: name, yaml: yaml, accept: accept, names: names})
 	}
 	// creation-method table
 	for m := 0; m < 16; m++ {
@@ -486,14 +487,50 @@ func c11Rules(c *Ctx) {
 		y += "services:\n  okay:\n    value: \"V\"\n" + svc.String()
 		add(fmt.Sprintf("k-subset:%v", perm), y, false, names...)
 	}
+	// one service defined in two files: every scalar attribute is the last file's that sets it - `todo` too -, and only a service
+	// that is a placeholder after the merge is exempt from the attribute rules (round 13, S251)
+	for _, x := range []string{"", "true", "false"} {
+		for _, y := range []string{"", "true", "false"} {
+			for bad := 0; bad < 2; bad++ {
+				line := func(t string) string {
+					if t == "" {
+						return ""
+					}
+					return "    todo: " + t + "\n"
+				}
+				f1 := "services:\n  svc:\n    value: \"V\"\n" + line(x)
+				f2 := "services:\n  svc:\n    type: \"T\"\n" + line(y)
+				malformed := "    getter: \"Get It\"\n    tags: [\"bad tag\"]\n"
+				if bad == 0 {
+					f1 += malformed
+				} else {
+					f2 += malformed
+				}
+				merged := y
+				if merged == "" {
+					merged = x
+				}
+				rules = append(rules, c11rule{name: fmt.Sprintf("two-files-todo:first=%q,second=%q,malformed-in=%d", x, y, bad+1), yaml: f1, yaml2: f2, accept: merged == "true", names: []string{"svc"}})
+			}
+		}
+	}
 	c.Set("rule_cases", len(rules))
 	Par(len(rules), 16, func(i int) {
 		rl := rules[i]
 		dir := w.TempDir("c11r")
 		_ = work.WriteFile(filepath.Join(dir, "in.yaml"), []byte(rl.yaml))
 		out := filepath.Join(dir, "out.go")
-		run := cli.Do(w, "", nil, dir, out, "build", "-i", "in.yaml", "-o", out, "--ignore-missing-params", "--ignore-missing-services")
+		argv := []string{"build", "-i", "in.yaml"}
+		if rl.yaml2 != "" {
+			_ = work.WriteFile(filepath.Join(dir, "in2.yaml"), []byte(rl.yaml2))
+			argv = append(argv, "-i", "in2.yaml")
+		}
+		argv = append(argv, "-o", out, "--ignore-missing-params", "--ignore-missing-services")
+		run := cli.Do(w, "", nil, dir, out, argv...)
 		files := map[string]string{"input/in.yaml": rl.yaml, "stdout.txt": run.Res.Stdout, "rule.txt": rl.name}
+		if rl.yaml2 != "" {
+			files["input/in2.yaml"] = rl.yaml2
+		}
 		c.Eval("rule|"+rl.name+"|"+rl.yaml, true)
 		for _, br := range run.Contract() {
 			c.Side("C10,C12", "cli-contract:"+sigWords(br), br, files)
